@@ -304,7 +304,9 @@ int print_to_with(var out, int pos, const char* fmt, var args) {
       }
       
       if (strchr("fFeEgGaA", *fmt)) { 
-        int off = format_to(out, pos, fmt_buf, c_float(a));
+        int off = strchr(fmt_buf, 'L')
+          ? format_to(out, pos, fmt_buf, (long double)c_float(a))
+          : format_to(out, pos, fmt_buf, c_float(a));
         if (off < 0) { throw(FormatError, "Unable to output Real!"); }
         pos += off;
       }
